@@ -343,7 +343,8 @@ class PeerConn:
                 elif op == "respond":
                     self.send(step[1](bytes(self.received)))
                 elif op == "sleep":
-                    await asyncio.sleep(step[1])
+                    # a number, or a function of the bytes received so far (e.g. slow answers for some paths only)
+                    await asyncio.sleep(step[1](bytes(self.received)) if callable(step[1]) else step[1])
                 elif op == "close":
                     self.close(notify=True)
                 elif op == "fin":
